@@ -1001,13 +1001,45 @@ Qed.
 (* 7. literal conversion: folder and run time are the same function of the text *)
 (* ------------------------------------------------------------------------- *)
 
+Lemma lit_same_value_all :
+  forall (libc : string -> string -> Z) (d2f f2d : Z -> Z) (other : string -> cval) (text : string),
+    site_value libc d2f f2d other XP.fold_sflo text = site_value libc d2f f2d other XP.rt_sflo text /\
+    site_value libc d2f f2d other XP.fold_dflo text = site_value libc d2f f2d other XP.rt_dflo text.
+Proof. intros. split; reflexivity. Qed.
+
+(* Whenever the folder folds a literal, the constant is the run-time value of the same
+   text; and the folder declines (leaves the run-time call in place) exactly when that
+   value is not finite. *)
 Lemma lit_same_function_all :
   forall (libc : string -> string -> Z) (d2f f2d : Z -> Z) (other : string -> cval) (text : string),
-    leval_to libc d2f f2d other (ls_dest XP.fold_sflo) text (ls_exp XP.fold_sflo)
-      = leval_to libc d2f f2d other (ls_dest XP.rt_sflo) text (ls_exp XP.rt_sflo) /\
-    leval_to libc d2f f2d other (ls_dest XP.fold_dflo) text (ls_exp XP.fold_dflo)
-      = leval_to libc d2f f2d other (ls_dest XP.rt_dflo) text (ls_exp XP.rt_dflo).
-Proof. intros. split; reflexivity. Qed.
+    (forall v, site_fold libc d2f f2d other XP.fold_sflo text = Some v ->
+               v = site_value libc d2f f2d other XP.rt_sflo text /\ cval_finite v = true) /\
+    (forall v, site_fold libc d2f f2d other XP.fold_dflo text = Some v ->
+               v = site_value libc d2f f2d other XP.rt_dflo text /\ cval_finite v = true) /\
+    (site_fold libc d2f f2d other XP.fold_sflo text = None <->
+       cval_finite (site_value libc d2f f2d other XP.rt_sflo text) = false) /\
+    (site_fold libc d2f f2d other XP.fold_dflo text = None <->
+       cval_finite (site_value libc d2f f2d other XP.rt_dflo text) = false) /\
+    (* the run-time sites never decline *)
+    site_fold libc d2f f2d other XP.rt_sflo text = Some (site_value libc d2f f2d other XP.rt_sflo text) /\
+    site_fold libc d2f f2d other XP.rt_dflo text = Some (site_value libc d2f f2d other XP.rt_dflo text).
+Proof.
+  intros libc d2f f2d other text.
+  destruct (lit_same_value_all libc d2f f2d other text) as [Es Ed].
+  unfold site_fold.
+  change (ls_guard XP.fold_sflo) with true. change (ls_guard XP.fold_dflo) with true.
+  change (ls_guard XP.rt_sflo) with false. change (ls_guard XP.rt_dflo) with false.
+  rewrite Es, Ed. cbn [andb].
+  repeat split.
+  - destruct (cval_finite (site_value libc d2f f2d other XP.rt_sflo text)) eqn:E; cbn [negb] in *; congruence.
+  - destruct (cval_finite (site_value libc d2f f2d other XP.rt_sflo text)) eqn:E; cbn [negb] in *; congruence.
+  - destruct (cval_finite (site_value libc d2f f2d other XP.rt_dflo text)) eqn:E; cbn [negb] in *; congruence.
+  - destruct (cval_finite (site_value libc d2f f2d other XP.rt_dflo text)) eqn:E; cbn [negb] in *; congruence.
+  - destruct (cval_finite (site_value libc d2f f2d other XP.rt_sflo text)); cbn [negb]; congruence.
+  - destruct (cval_finite (site_value libc d2f f2d other XP.rt_sflo text)); cbn [negb]; congruence.
+  - destruct (cval_finite (site_value libc d2f f2d other XP.rt_dflo text)); cbn [negb]; congruence.
+  - destruct (cval_finite (site_value libc d2f f2d other XP.rt_dflo text)); cbn [negb]; congruence.
+Qed.
 
 (* the literal text reaches the conversion through the two known glue shapes, the
    stored type is float / double, and interpreter and generated C both call the
@@ -1018,7 +1050,9 @@ Lemma lit_routes_all :
   ls_dest XP.fold_sflo = CFloat /\ ls_dest XP.rt_sflo = CFloat /\
   ls_dest XP.fold_dflo = CDouble /\ ls_dest XP.rt_dflo = CDouble /\
   XP.fint_sflo = "fiArrToSFlo"%string /\ XP.genc_sflo = "fiArrToSFlo"%string /\
-  XP.fint_dflo = "fiArrToDFlo"%string /\ XP.genc_dflo = "fiArrToDFlo"%string.
+  XP.fint_dflo = "fiArrToDFlo"%string /\ XP.genc_dflo = "fiArrToDFlo"%string /\
+  ls_guard XP.fold_sflo = true /\ ls_guard XP.fold_dflo = true /\
+  ls_guard XP.rt_sflo = false /\ ls_guard XP.rt_dflo = false.
 Proof. repeat split; reflexivity. Qed.
 
 (* ------------------------------------------------------------------------- *)
@@ -1064,3 +1098,12 @@ Example ex_lit_differs :
     leval_to libc d2f f2d other CFloat text (LCast CFloat (LCall "atof")) = (CFloat, d2f (libc "atof"%string text)) /\
     leval_to libc d2f f2d other CFloat text (LCall "strtod") = (CFloat, d2f (libc "strtod"%string text)).
 Proof. intros. split; reflexivity. Qed.
+(* the folder declines an overflowing literal and folds an ordinary one (libc instantiated
+   by constant functions just for the example) *)
+Example ex_lit_declines :
+  site_fold (fun _ _ => 0x7ff0000000000000) (fun b => b) (fun b => b) (fun _ => (CDouble, 0)) XP.fold_dflo "1.0e400"%string = None /\
+  site_fold (fun _ _ => 0x3ff0000000000000) (fun b => b) (fun b => b) (fun _ => (CDouble, 0)) XP.fold_dflo "1.0"%string
+    = Some (CDouble, 0x3ff0000000000000) /\
+  site_fold (fun _ _ => 0x7ff0000000000000) (fun b => b) (fun b => b) (fun _ => (CDouble, 0)) XP.rt_dflo "1.0e400"%string
+    = Some (CDouble, 0x7ff0000000000000).
+Proof. vm_compute. repeat split; reflexivity. Qed.
